@@ -264,7 +264,8 @@ def check_rows(sources, res, what, F, c, docov):
                 res.bad("island-extent", "%s has widths (%r,%r), the detected island spans (%d,%d)" % (
                     where, i.x_width, i.y_width, max(rs) - min(rs) + 1, max(cs) - min(cs) + 1), **tags)
                 break
-            if not (float(i.peak_flux) == float(want_peak)):
+            # (scaled storage reproduces a pixel value to an ulp, not bit for bit)
+            if not abs(float(i.peak_flux) - float(want_peak)) <= 1e-12 * abs(float(want_peak)):
                 res.bad("island-peak", "%s has peak %r, the brightest pixel of the detected island is %r" % (
                     where, float(i.peak_flux), float(want_peak)), **tags)
                 break
